@@ -228,6 +228,62 @@ fn field_muts(w: &World, n: usize, peers: usize) -> Vec<FieldMut> {
     o
 }
 
+/// Fields of the message whose value does not fit the type the segment model gives them (written from
+/// seg.proto / the SCION header: 32-bit timestamp, 16-bit segment id / interface ids / MTUs, 8-bit
+/// expiry, 6-byte MAC). Only fields that are present and decodable are listed.
+fn out_of_range_fields(msg: &cp::PathSegment) -> Vec<String> {
+    let mut o = vec![];
+    if let Ok(i) = cp::SegmentInformation::decode(&msg.segment_info[..]) {
+        if u32::try_from(i.timestamp).is_err() {
+            o.push("segment_info.timestamp".to_string());
+        }
+        if i.segment_id > u16::MAX as u32 {
+            o.push("segment_info.segment_id".to_string());
+        }
+    }
+    let mut hf = |name: &str, h: &cp::HopField, o: &mut Vec<String>| {
+        if h.ingress > u16::MAX as u64 {
+            o.push(format!("{name}.ingress"));
+        }
+        if h.egress > u16::MAX as u64 {
+            o.push(format!("{name}.egress"));
+        }
+        if h.exp_time > u8::MAX as u32 {
+            o.push(format!("{name}.exp_time"));
+        }
+        if h.mac.len() != 6 {
+            o.push(format!("{name}.mac.len"));
+        }
+    };
+    for e in &msg.as_entries {
+        let Some(s) = &e.signed else { continue };
+        let Ok(hb) = cr::HeaderAndBodyInternal::decode(&s.header_and_body[..]) else { continue };
+        let Ok(b) = cp::AsEntrySignedBody::decode(&hb.body[..]) else { continue };
+        if let Some(he) = &b.hop_entry {
+            if he.ingress_mtu > u16::MAX as u32 {
+                o.push("hop_entry.ingress_mtu".to_string());
+            }
+            if let Some(h) = &he.hop_field {
+                hf("hop_entry.hop_field", h, &mut o);
+            }
+        }
+        for p in &b.peer_entries {
+            if p.peer_interface > u16::MAX as u64 {
+                o.push("peer_entry.peer_interface".to_string());
+            }
+            if p.peer_mtu > u16::MAX as u32 {
+                o.push("peer_entry.peer_mtu".to_string());
+            }
+            if let Some(h) = &p.hop_field {
+                hf("peer_entry.hop_field", h, &mut o);
+            }
+        }
+    }
+    o.sort();
+    o.dedup();
+    o
+}
+
 fn run_msg(w: &World, msg: &cp::PathSegment, fields: &[String], agg: &mut Agg, verbose: bool) {
     agg.inc("n:seg-rpc-cases");
     agg.inc("n:conversions");
@@ -247,6 +303,17 @@ fn run_msg(w: &World, msg: &cp::PathSegment, fields: &[String], agg: &mut Agg, v
         Ok(Ok(s)) => s,
     };
     agg.inc("seg-rpc:Ok");
+    // lossless: a value that does not fit the target type must be an error, never a truncated value
+    let oor = out_of_range_fields(msg);
+    if verbose {
+        println!("  try_from_rpc = Ok; out-of-range fields in the message: {oor:?}; converted info {:?}", seg.info());
+    }
+    for f in &oor {
+        agg.find(format!("rpc-out-of-range-field-accepted:{f}"), format!("PathSegment whose {f} does not fit the target type converts Ok (value silently changed) - mutated {fields:?}"), wit());
+    }
+    if oor.is_empty() {
+        agg.inc("seg-rpc:Ok-all-fields-in-range");
+    }
     agg.inc("n:conversions");
     match vpc::catch(|| SignedPathSegment::try_from_rpc(seg.clone().into_rpc())) {
         Ok(Ok(b)) if b == seg => agg.inc("seg-rpc:reencode-equal"),
